@@ -7,6 +7,8 @@
   clause (exceptional return), and may write only what modifies allows.
 """
 import inspect
+import json
+import os
 
 import z3
 from z3 import And, Or, Not, If, Implies, IntVal, BoolVal, RealVal, is_expr, simplify
@@ -15,6 +17,10 @@ from .engine import Unsupported, PyRaise, PathEnd, GenObj
 from .sval import (SBytes, SStr, MRef, ORef, Obj, SList, SOpt, Rec, Opaque, ExcVal, ExtObj, fresh,
                    BYTES, BYTEARRAY, MEMVIEW, I, B, R, Str)
 from . import sval
+
+
+# ids of the known findings (known_findings.json) whose failing class the contracts carve out
+KNOWN = set(json.loads(os.environ.get('PYVC_KNOWN', '[]')))
 
 
 # ----------------------------------------------------------------------------- type descriptors
@@ -533,6 +539,14 @@ class ProducerContract(Contract):
     def check_exit(self, ip, a, old, kind, res):
         st = ip.st
         g = st.ghost.setdefault('self_gen', {})
+        closing = st.ghost.get('closing_at')
+        if closing is not None and (kind == 'return' or res.cls is GeneratorExit):
+            # the generator was closed at a yield: whether it lets GeneratorExit propagate or
+            # catches it and returns, close() completes; the close postcondition must hold now
+            k, s, v, snap = closing
+            for item in self.drop_ensures(ip, a, snap, s, v):
+                st.oblige('yield%d(%s):on-close:%s' % (k, s.name, item[0]), item[1], tags=item[2] if len(item) > 2 else ())
+            return
         if kind == 'return':
             for item in self.p_done(ip, a, old, g):
                 st.oblige('exhausted:%s' % item[0], item[1], tags=item[2] if len(item) > 2 else ())
